@@ -36,7 +36,7 @@ def run_one(patch, keep=False, only_prop=None):
     if only_prop:
         prop = only_prop
     name = os.path.basename(patch)[:-6] if not patch.endswith("patch.diff") else "seeded/" + os.path.basename(os.path.dirname(patch))
-    d = tempfile.mkdtemp(prefix="wf-mut-%s-" % name, dir=SCRATCH_ROOT)
+    d = tempfile.mkdtemp(prefix="wf-mut-%s-" % name.replace("/", "_"), dir=SCRATCH_ROOT)
     t0 = time.time()
     try:
         copy_sources(d)
